@@ -147,8 +147,10 @@ class CallTimeout(BaseException):
 
 
 def with_timeout(fn, seconds=150):
-  """Runs fn() under a SIGALRM watchdog (main thread of a process only). Termination is part of several properties;
-  a call that does not return is reported as an outcome instead of hanging the check."""
+  """Runs fn() under a watchdog (main thread of a process only). Termination is part of several properties; a call
+  that does not return is reported as an outcome instead of hanging the check.  The budget is CPU time of this
+  process (ITIMER_PROF), so a loaded machine cannot turn a slow search into a reported non-termination; a wall-clock
+  alarm twelve times as long covers a call that blocks without computing."""
   import signal
   import threading
   if threading.current_thread() is not threading.main_thread():
@@ -156,10 +158,14 @@ def with_timeout(fn, seconds=150):
 
   def handler(signum, frame):
     raise CallTimeout()
-  old = signal.signal(signal.SIGALRM, handler)
-  signal.alarm(int(seconds))
+  old_alrm = signal.signal(signal.SIGALRM, handler)
+  old_prof = signal.signal(signal.SIGPROF, handler)
+  signal.setitimer(signal.ITIMER_PROF, float(seconds))
+  signal.alarm(int(seconds) * 12)
   try:
     return fn()
   finally:
+    signal.setitimer(signal.ITIMER_PROF, 0.0)
     signal.alarm(0)
-    signal.signal(signal.SIGALRM, old)
+    signal.signal(signal.SIGPROF, old_prof)
+    signal.signal(signal.SIGALRM, old_alrm)
